@@ -8,7 +8,7 @@ UNITS = ["event.c", "evmap.c"]
 FUNCTIONS = ["event_new", "event_free", "event_finalize", "event_free_finalize", "event_finalize_nolock_", "event_del_nolock_",
              "event_process_active_single_queue", "event_base_cancel_single_callback_", "event_base_free_queues_", "event_base_free_",
              "event_base_once", "event_once_cb", "event_base_priority_init", "libevent_global_shutdown"]
-BOUNDS = ("2 heap events (A: one-shot read / persistent read / timer; B: persistent read) + event_base_once records; histories of at most 3 "
+BOUNDS = ("2 heap events (A: one-shot read / persistent read / timer / one-shot signal / persistent signal with ncalls <= 3; B: persistent read) + event_base_once records; histories of at most 3 "
           "operations from {add, add(NULL), active, del, finalize, free_finalize, free, loop pass, loop pass after 2 s, once(now/1 s/fd), "
           "active(B), priority_init with failed allocation}; one action inside A's callback from {free self, free_finalize self, finalize self, "
           "del self, free B, free_finalize B, re-activate}; epilogue either two loop passes or none, then user releases what it owns, "
@@ -58,11 +58,12 @@ def _pins():
         out += ["--restrict-function-pointer", "%s/%s" % (lab, tg)]
     return [out]
 
-def _ob(ops, kind=0, cbact="NONE", epi=0, fin_frees=0, **kw):
+def _ob(ops, kind=0, cbact="NONE", epi=0, fin_frees=0, ncalls=1, **kw):
     ops = list(ops) + ["NOP"] * (3 - len(ops))
-    name = "%s_k%d_cb%s_e%d%s" % ("-".join(o.lower() for o in ops if o != "NOP") or "none", kind, cbact.lower(), epi, "_finfrees" if fin_frees else "")
+    name = "%s_k%d_cb%s_e%d%s%s" % ("-".join(o.lower() for o in ops if o != "NOP") or "none", kind, cbact.lower(), epi, "_finfrees" if fin_frees else "",
+                                    "" if ncalls == 1 else "_n%d" % ncalls)
     defs = ["C10_OP1=%d" % O[ops[0]], "C10_OP2=%d" % O[ops[1]], "C10_OP3=%d" % O[ops[2]], "C10_KIND=%d" % kind,
-            "C10_CBACT=%d" % CB[cbact], "C10_EPI=%d" % epi, "C10_FIN_FREES=%d" % fin_frees]
+            "C10_CBACT=%d" % CB[cbact], "C10_EPI=%d" % epi, "C10_FIN_FREES=%d" % fin_frees, "C10_NCALLS=%d" % ncalls]
     d = dict(name=name, harness="C10_lifetime.c", entry="harness_lifetime", sources=[], defines=defs, unwind=6,
              unwindset=["evmap_io_foreach_fd.0:34", "evmap_signal_foreach_signal.0:34", "evmap_io_clear_.0:34", "evmap_signal_clear_.0:34"],
              instrument=_pins(), timeout=600, mem_gb=4,
@@ -96,6 +97,15 @@ def obligations(tier):
         for cbact in ("FREE_SELF", "FREE_FINALIZE_SELF", "FINALIZE_SELF", "DEL_SELF"):
             add(["ADD", "ACTIVE", "LOOP"], kind=kind, cbact=cbact)
     add(["ADD", "ACTIVE", "LOOP"], cbact="FINALIZE_SELF", fin_frees=1)
+    # signal events activated with ncalls >= 2: releasing/deleting the event in its first invocation must stop the ncalls loop
+    # (one-shot signal events are no longer inserted while their callback runs; persistent ones are)
+    for kind in (3, 4):
+        for cbact in ("FREE_SELF", "FREE_FINALIZE_SELF", "FINALIZE_SELF", "DEL_SELF"):
+            add(["ADD", "ACTIVE", "LOOP"], kind=kind, cbact=cbact, ncalls=2)
+        add(["ACTIVE", "LOOP"], kind=kind, cbact="FREE_SELF", ncalls=3)
+        add(["ACTIVE", "LOOP"], kind=kind, cbact="DEL_SELF", ncalls=2)
+        add(["ADD", "ACTIVE", "LOOP"], kind=kind, cbact="NONE", ncalls=2)
+        add(["ADD", "ACTIVE", "FREE"], kind=kind, ncalls=2)
     add(["ADD", "ACTIVE", "ACTIVE_B"], cbact="FREE_B")
     add(["ACTIVE_B", "ACTIVE", "LOOP"], cbact="FREE_B")
     add(["ADD", "ACTIVE", "ACTIVE_B"], cbact="FREE_FINALIZE_B")
